@@ -471,7 +471,7 @@ Qed.
    e2 :: es2 on v alone, moved by |u| + |w| -- whatever whitespace string w stands between u and v.  Hence two
    texts that differ only in the whitespace w at that boundary (insertion: w1 = [], removal: w2 = []) give the same
    tokens, PROVIDED the prefix derivation is the same on both texts.  That proviso is a hypothesis here (it is what
-   fails in F-09 and F-09b); `solid_prefix` below discharges it for prefixes made of literals. *)
+   fails in F-09 and F-09b); Part 2c (`lf_ok`, `and_insert_interior_lf`) discharges it for prefixes that end in a Literal. *)
 Lemma peg_seq_app rec es1 es2 : forall l acc,
   peg_seq rec (es1 ++ es2) l acc = match peg_seq rec es1 l acc with POk m ts => peg_seq rec es2 m ts | r => r end.
 Proof.
@@ -907,3 +907,190 @@ Proof.
   - intros c [<-|[]]. reflexivity.
   - discriminate.
 Qed.
+
+(* ------------------------------------------------------------------------------------------- *)
+(* Part 2c: a syntactic class of prefixes for which the hypothesis of `and_interior` holds        *)
+(* ------------------------------------------------------------------------------------------- *)
+(* `lf st e`: e is built from non-empty Literals, Words (no as_keyword, no max), And, Group, Suppress and pass-through
+   wrappers; with st = true (strict) its last token is a Literal.  A successful reading of such an element inspects the
+   characters before its end only (a Word also the one at its end), so it is the same on every text with the same first
+   characters. *)
+Fixpoint lf (st : bool) (e : expr) : bool :=
+  match e with
+  | Tok _ _ (KLit (_ :: _)) => true
+  | Tok _ _ (KWord _ _ _ None _ false _) => negb st
+  | Nary _ _ NAnd es =>
+    (fix go (l : list expr) : bool :=
+       match l with [] => false | x :: r => match r with [] => lf st x | _ :: _ => lf false x && go r end end) es
+  | Enh _ _ (EGroup false) c | Enh _ _ ESuppress c | Enh _ _ EPass c => lf st c
+  | _ => false
+  end.
+Definition lf_seq (st : bool) : list expr -> bool :=
+  fix go (l : list expr) : bool :=
+    match l with [] => false | x :: r => match r with [] => lf st x | _ :: _ => lf false x && go r end end.
+
+Lemma at_pref u t k : k < length u -> at_ (u ++ t) k = at_ u k.
+Proof. intros H. unfold at_. apply nth_error_app1. exact H. Qed.
+
+Lemma startswith_pref u t m : forall k, k + length m <= length u -> startswith_at (u ++ t) k m = startswith_at u k m.
+Proof.
+  induction m as [|c m IH]; intros k H; simpl in *; [reflexivity|].
+  rewrite at_pref by lia. destruct (at_ u k); [|reflexivity]. rewrite IH by lia. reflexivity.
+Qed.
+
+Lemma slice_pref u t a b : b <= length u -> slice_ (u ++ t) a b = slice_ u a b.
+Proof.
+  intros H. unfold slice_. rewrite skipn_app. rewrite firstn_app. rewrite skipn_length.
+  replace (b - a - (length u - a)) with 0 by lia. simpl. apply app_nil_r.
+Qed.
+
+Lemma run_while_pref u t1 t2 p : forall f1 f2 k,
+  length (u ++ t1) - k <= f1 -> length (u ++ t2) - k <= f2 ->
+  run_while f1 (u ++ t1) k (length (u ++ t1)) p < length u ->
+  run_while f2 (u ++ t2) k (length (u ++ t2)) p = run_while f1 (u ++ t1) k (length (u ++ t1)) p.
+Proof.
+  induction f1 as [|f1 IH]; intros f2 k H1 H2 Hr.
+  - simpl in Hr. rewrite app_length in H1. lia.
+  - pose proof (run_while_ge (S f1) (u ++ t1) p k (length (u ++ t1))) as Hge.
+    assert (Hk : k < length u) by lia.
+    destruct f2 as [|f2]; [rewrite app_length in H2; lia|].
+    cbn [run_while] in *.
+    assert (Nat.ltb k (length (u ++ t1)) = true) as E1 by (apply Nat.ltb_lt; rewrite app_length; lia).
+    assert (Nat.ltb k (length (u ++ t2)) = true) as E2 by (apply Nat.ltb_lt; rewrite app_length; lia).
+    rewrite E1 in *. rewrite E2. rewrite !at_pref in * by exact Hk.
+    destruct (at_ u k) as [c|]; [|reflexivity]. destruct (p c); [|reflexivity].
+    apply IH; first [lia|exact Hr].
+Qed.
+
+Lemma skip_white_pref u t1 t2 k w : skip_white (u ++ t1) k w < length u ->
+  skip_white (u ++ t2) k w = skip_white (u ++ t1) k w.
+Proof. intros H. unfold skip_white in *. apply run_while_pref; first [lia|exact H]. Qed.
+
+Lemma eff_pref u t1 t2 e k : eff (u ++ t1) e k < length u -> eff (u ++ t2) e k = eff (u ++ t1) e k.
+Proof. unfold eff. destruct (_ && _); [apply skip_white_pref|reflexivity]. Qed.
+
+Definition slack (st : bool) : nat := if st then 0 else 1.
+
+Lemma tok_lf a i t st u t1 t2 p l r : lf st (Tok a i t) = true ->
+  tok_impl a t (u ++ t1) p = IOk l r -> l + slack st <= length u ->
+  p < l /\ tok_impl a t (u ++ t2) p = IOk l r.
+Proof.
+  intros Hc H Hl. destruct t; simpl in Hc; try discriminate Hc.
+  - (* KLit *)
+    destruct m as [|c m]; [discriminate|]. unfold tok_impl in *. destruct m as [|c2 m'].
+    + destruct (at_ (u ++ t1) p) as [d|] eqn:E; [|discriminate]. destruct (N.eqb d c) eqn:Ed; [|discriminate].
+      injection H as <- <-. assert (p < length u) by lia. rewrite at_pref in * by lia. rewrite E, Ed. split; [lia|reflexivity].
+    + destruct (at_ (u ++ t1) p) as [d|] eqn:E; [|discriminate].
+      destruct (startswith_at (u ++ t1) p (c :: c2 :: m')) eqn:Es; [|discriminate].
+      injection H as <- <-. cbn [length] in *. assert (p < length u) by lia.
+      rewrite at_pref in * by lia. rewrite E. rewrite startswith_pref in * by (cbn [length]; lia). rewrite Es.
+      split; [lia|reflexivity].
+  - (* KWord *)
+    destruct maxl; [discriminate|]. destruct askw; [discriminate|]. destruct st; [discriminate|]. simpl in Hl.
+    unfold tok_impl in *. cbv zeta in *.
+    destruct (at_ (u ++ t1) p) as [c0|] eqn:E0; [|destruct use_re; discriminate].
+    pose proof (at_some _ _ _ E0) as Hp.
+    pose proof (span_bnd (u ++ t1) p None (fun c => mem_char c body) Hp) as Hsp.
+    unfold len_cap in *.
+    set (e1 := run_while (length (u ++ t1)) (u ++ t1) (S p) (length (u ++ t1)) (fun c => mem_char c body)) in *.
+    assert (He : e1 = l).
+    { destruct use_re.
+      - destruct (negb (mem_char c0 init)); [discriminate|]. cbn [andb negb orb] in H.
+        destruct (Nat.ltb (e1 - p) minl); [discriminate|]. injection H as <- _. reflexivity.
+      - destruct (negb (mem_char c0 init)); [discriminate|]. cbn [andb] in H.
+        destruct (Nat.ltb (e1 - p) minl); [discriminate|]. injection H as <- _. reflexivity. }
+    assert (Hpu : p < length u) by lia.
+    assert (E2 : run_while (length (u ++ t2)) (u ++ t2) (S p) (length (u ++ t2)) (fun c => mem_char c body) = e1).
+    { apply run_while_pref; try lia; fold e1; lia. }
+    rewrite at_pref in E0 by exact Hpu. rewrite at_pref by exact Hpu. rewrite E0. rewrite E2.
+    clearbody e1. subst l.
+    destruct use_re.
+    + destruct (negb (mem_char c0 init)); [discriminate|]. cbn [andb negb orb] in *.
+      destruct (Nat.ltb (e1 - p) minl); [discriminate|]. rewrite slice_pref in * by lia. split; [lia|exact H].
+    + destruct (negb (mem_char c0 init)); [discriminate|]. cbn [andb] in *.
+      destruct (Nat.ltb (e1 - p) minl); [discriminate|]. rewrite slice_pref in * by lia. split; [lia|exact H].
+Qed.
+
+Section LookFree.
+Variable G : env.
+Variables u t1 t2 : str.
+
+Definition lf_inv (f : nat) : Prop := forall st e loc l ts, lf st e = true ->
+  peg G (u ++ t1) f e loc = POk l ts -> l + slack st <= length u ->
+  eff (u ++ t1) e loc < l /\ peg G (u ++ t2) f e loc = POk l ts.
+
+Lemma lf_seq_ok f : lf_inv f -> forall st es loc acc l ts, lf_seq st es = true ->
+  peg_seq (peg G (u ++ t1) f) es loc acc = POk l ts -> l + slack st <= length u ->
+  loc < l /\ peg_seq (peg G (u ++ t2) f) es loc acc = POk l ts.
+Proof.
+  intros IH st. induction es as [|x es IHes]; intros loc acc l ts Hc H Hl; [discriminate|].
+  cbn [peg_seq] in *. destruct (peg G (u ++ t1) f x loc) as [l1 ts1| | |] eqn:Ex; try discriminate H.
+  destruct es as [|y es'].
+  - cbn [lf_seq] in Hc. cbn [peg_seq] in *. injection H as <- <-.
+    destruct (IH st x loc l1 ts1 Hc Ex Hl) as [A B]. rewrite B.
+    pose proof (eff_bnd (u ++ t1) x loc). split; [lia|reflexivity].
+  - cbn [lf_seq] in Hc. apply andb_prop in Hc as [Hx Hr].
+    destruct (IHes l1 (acc ++ ts1) l ts Hr H Hl) as [A B].
+    assert (Hl1 : l1 + slack false <= length u) by (simpl; destruct st; simpl in Hl; lia).
+    destruct (IH false x loc l1 ts1 Hx Ex Hl1) as [C D]. rewrite D.
+    pose proof (eff_bnd (u ++ t1) x loc). split; [lia|exact B].
+Qed.
+
+Theorem lf_ok : forall f, lf_inv f.
+Proof.
+  induction f as [|f IH]; intros st e loc l ts Hc H Hl; [discriminate|].
+  cbn [peg] in *. set (p := eff (u ++ t1) e loc) in *.
+  assert (Hp : p < l -> eff (u ++ t2) e loc = p) by (intros Hpl; apply eff_pref; fold p; destruct st; simpl in Hl; lia).
+  destruct e as [a i t|a i kd es|a i kd c|a i z b ne|a i c inc ig fo|a i id]; try discriminate Hc.
+  - cbn [attrs_of] in *. destruct (tok_impl a t (u ++ t1) p) as [l0 r| |] eqn:E; try discriminate H.
+    injection H as <- <-. destruct (tok_lf a i t st u t1 t2 p l0 r Hc E Hl) as [A B].
+    split; [exact A|]. rewrite (Hp A). rewrite B. reflexivity.
+  - destruct kd; try discriminate Hc.
+    assert (Hs : lf_seq st es = true) by exact Hc.
+    destruct (lf_seq_ok f IH st es p [] l ts Hs H Hl) as [A B].
+    split; [exact A|]. rewrite (Hp A). exact B.
+  - assert (Hsub : forall l' ts', lf st c = true -> peg G (u ++ t1) f c p = POk l' ts' -> l' + slack st <= length u ->
+              p < l' /\ peg G (u ++ t2) f c p = POk l' ts').
+    { intros l' ts' Hcc Hpc Hl'. destruct (IH st c p l' ts' Hcc Hpc Hl') as [A B].
+      pose proof (eff_bnd (u ++ t1) c p). split; [lia|exact B]. }
+    destruct kd as [|aspy| | | | | | | | | | | ]; try discriminate Hc; try (destruct aspy; [discriminate Hc|]);
+      simpl in Hc; destruct (peg G (u ++ t1) f c p) as [l' ts'| | |] eqn:Ec; try discriminate H;
+      injection H as <- <-; destruct (Hsub l' ts' Hc eq_refl Hl) as [A B]; (split; [exact A|]); rewrite (Hp A); rewrite B; reflexivity.
+Qed.
+End LookFree.
+
+(* the prefix hypothesis of `and_insert_interior`, discharged for a prefix of the class *)
+Corollary and_insert_interior_lf G : forallb fwd_class G = true ->
+  forall u w v f a i es1 e2 es2 loc0 ts1 l ts,
+  lf_seq true es1 = true ->
+  fwd_class e2 = true -> Forall fwdP es2 ->
+  callpre (attrs_of e2) && skipws (attrs_of e2) = true ->
+  (forall c, In c w -> mem_char c (white (attrs_of e2)) = true) ->
+  let e := Nary a i NAnd (es1 ++ e2 :: es2) in
+  peg G (u ++ v) (S f) e loc0 = POk l ts ->
+  peg_seq (peg G (u ++ v) f) es1 (eff (u ++ v) e loc0) [] = POk (length u) ts1 ->
+  peg G (u ++ w ++ v) (S f) e loc0 = POk (length w + l) ts.
+Proof.
+  intros HG u w v f a i es1 e2 es2 loc0 ts1 l ts Hlf He2 Hes2 Hp Hw e H0 H1.
+  apply (and_insert_interior G HG u w v f a i es1 e2 es2 loc0 ts1 l ts He2 Hes2 Hp Hw H0 H1).
+  destruct (lf_seq_ok G u v (w ++ v) f (lf_ok G u v (w ++ v) f) true es1 _ [] _ ts1 Hlf H1) as [A B]; [simpl; lia|].
+  unfold e in *. rewrite (eff_pref u v (w ++ v) _ loc0 A). exact B.
+Qed.
+
+(* the JSON-like instance again: its prefix  '{' Word ':'  is of the class, nothing is assumed about the new text *)
+Lemma json_instance_lf :
+  lf_seq true xpre = true /\ peg xG (xu ++ xw ++ xv) 12 xobj 0 = POk 11 xresult.
+Proof.
+  split; [reflexivity|].
+  change 11 with (length xw + 9).
+  apply (and_insert_interior_lf xG xG_fwd xu xw xv 11 (xa 27 true true) [] xpre xval [xlit 125%N 8] 0
+           [TStr [123%N]; TStr [107%N]; TStr [58%N]] 9 xresult).
+  - reflexivity.
+  - reflexivity.
+  - repeat constructor.
+  - reflexivity.
+  - intros c [<-|[<-|[]]]; reflexivity.
+  - vm_compute. reflexivity.
+  - vm_compute. reflexivity.
+Qed.
+
